@@ -23,6 +23,10 @@ LEVEL = "model_checking"
 CFG = "Trace_Subscription_C13.cfg"
 
 
+def ADV(a, n):
+    return {"a": a, "cr": "", "c": "", "p": "", "d": 0, "f": False, "n": n}
+
+
 def _check(ctx, behs, tag, drift=True):
     """replay + Obs validation; returns None or a finding dict"""
     tpath, rows = sl.drive(ctx, behs, tag)
@@ -78,33 +82,37 @@ def _confirm(ctx, f, tag):
 
 def run(ctx):
     ctx.assumptions += [
-        "one consumer, two buyers, plans p1 < p2 with up to two price variants; epochBlocks 20, stale period 200 blocks (Tester defaults)",
+        "two consumers (c1 rich, c2 420 tokens) and a poor third-party buyer, plans p1 < p2 with up to two price variants; buyers can be drained; epochBlocks 20, stale period 200 blocks (Tester defaults)",
         "an epoch is shorter than a month (no month expiry while a subscription version waits for the next epoch)",
         "BeginBlock order of testutil/keeper (timer stores before epochstorage)",
         "TLC bounds: see specs/Subscription_mc*.cfg",
     ]
     cands = []
-    # M: design level, code as fixed
-    mcq = ctx.pick("Subscription_mcq.cfg", "Subscription_mc.cfg")
-    res, cand = sl.mc(ctx, mcq, timeout=ctx.pick(600, 2400))
-    if cand:
-        ctx.notes.append("design-level %s on %s: replayed as candidate" % (res["violated"], mcq))
-        cands.append(cand)
-    else:
-        ctx.add_mc("Subscription (all txs, 2 plans, 2 buyers)", res)
-    res, cand = sl.mc(ctx, ctx.pick("Subscription_mcfq.cfg", "Subscription_mcf.cfg"), timeout=ctx.pick(600, 2400))
-    if cand:
-        ctx.notes.append("design-level %s on focused config: replayed as candidate" % res["violated"])
-        cands.append(cand)
-    else:
-        ctx.add_mc("Subscription focused (1 plan index, 1-month buys, deeper)", res)
+    # M: design level, code as fixed: one consumer with every transaction kind; two consumers sharing one plan index
+    runs = [(ctx.pick("Subscription_mcq.cfg", "Subscription_mc.cfg"), "Subscription (1 consumer, all txs, 2 plans)"),
+            (ctx.pick("Subscription_mc2q.cfg", "Subscription_mc2.cfg"), "Subscription (2 consumers sharing a plan, drain, 1-month buys)")]
+    if not ctx.quick:
+        runs.append(("Subscription_mcf.cfg", "Subscription focused (1 consumer, 1 plan index, deeper)"))
+    for cfg, name in runs:
+        res, cand = sl.mc(ctx, cfg, timeout=ctx.pick(900, 3000))
+        if cand:
+            ctx.notes.append("design-level %s on %s: replayed as candidate" % (res["violated"], cfg))
+            cands.append(cand)
+        else:
+            ctx.add_mc(name, res)
     # candidates from the pre-fix reading of renewSubscription (reference swap never runs)
     res, cand = sl.mc(ctx, "Subscription_mcf_asis.cfg", timeout=900)
-    if cand:
-        cands.append(cand + [{"a": "month", "cr": "", "p": "", "d": 0, "f": False, "n": 1}])
-        ctx.notes.append("pre-fix model (FixRenew=FALSE): %s after %d steps; replayed" % (res["violated"], len(cand)))
-    else:
+    if not cand:
         raise vlib.Infra("pre-fix model no longer yields the F1 candidate - spec changed?")
+    cands.append(cand + [ADV("month", 1)])
+    ctx.notes.append("pre-fix model (FixRenew=FALSE): %s after %d steps; replayed" % (res["violated"], len(cand)))
+    # reachability query: TLC constructs the shortest history in which an auto-renewal onto another plan version fails
+    # for lack of funds while another consumer holds the old version; continued past the stale period and two expiries
+    res, cand = sl.mc(ctx, "Subscription_cov1.cfg", timeout=1200)
+    if not cand:
+        raise vlib.Infra("coverage target 'failed renewal onto another version with a second holder' not reachable in the model")
+    cands.append(cand + [ADV("stale", 219), ADV("month", 1), ADV("month", 1)])
+    ctx.notes.append("coverage target reached by TLC after %d steps (%d states); replayed" % (len(cand), res["distinct"]))
     # G: simulation
     n = ctx.pick(60, 240)
     behs = sl.sim(ctx, "Subscription_sim.cfg", num=n, depth=14, tag="sim")[:ctx.pick(250, 800)]
@@ -119,7 +127,8 @@ def run(ctx):
         ctx.cov["trace_events"] = len(rows)
         ctx.cov["stats"] = dict(st)
         need = {"buy:new": 20, "month:renew": 5, "month:expire": 5, "planadd:ok": 50, "plandel:ok": 20,
-                "plan-delete-matured-with-live-sub": 3, "month:renew-onto-other-version": 1, "plan-version-gc": 3}
+                "plan-delete-matured-with-live-sub": 3, "month:renew-onto-other-version": 1, "plan-version-gc": 3,
+                "buy:shares-plan-version": 5, "month:renew-failed": 2, "month:renew-failed-other-version-shared": 1}
         miss = {k: (st.get(k, 0), v) for k, v in need.items() if st.get(k, 0) < v}
         if miss:
             raise vlib.Infra("vacuous coverage (have, need): %s" % miss)
